@@ -96,11 +96,14 @@ def run_real(histories, chunk=150):
     res = []
     for i in range(0, len(histories), chunk):
         part = histories[i : i + chunk]
+        if res and res[-1].get("fatal", "").startswith("timeout"):
+            res += [{"fatal": "timeout (skipped after an earlier timeout)"} for _ in part]
+            continue
         inp = "".join(json.dumps(h) + "\n" for h in part)
         try:
             p = subprocess.run(
                 [sys.executable, str(WORKER), str(REPO)], input=inp, capture_output=True, text=True,
-                env=env, timeout=1800,
+                env=env, timeout=300,
             )
         except subprocess.TimeoutExpired:
             # a mutated `find` may loop for ever: that is a verdict about the real code
@@ -390,7 +393,20 @@ def call_sites(ctx):
     new_eff.get_repr_proc = w_repr
     sched.get_strictest_eqv_proc = w_strictest
     events = []
+    named, keyids_by_name, fixed_strict, is_eq_vals, real_part, setup_error = {}, {}, {}, None, "", None
+
+    class _Timeout(Exception):
+        pass
+
+    def _alarm(signum, frame):
+        raise _Timeout()
+
+    import signal
+
+    old_handler = signal.signal(signal.SIGALRM, _alarm)
+    signal.alarm(ctx.scale(240, 900))
     try:
+      try:
         with tempfile.TemporaryDirectory() as td:
             modname = f"c11_e2e_{os.getpid()}"
             (Path(td) / f"{modname}.py").write_text(E2E_SRC)
@@ -432,7 +448,17 @@ def call_sites(ctx):
             is_eq_vals = [attempt("is_eq", lambda: leaf.is_eq(leaf)), attempt("is_eq", lambda: leaf.is_eq(leaf2))]
             named = dict(leaf=leaf, leaf2=leaf2, leaf3=leaf3, leaf4=leaf4, leaf5=leaf5, pe_leaf=pe_leaf, tr=tr,
                          c2=c2, c3=c3, c4=c4, other=other, caller=caller)
-            keyids_by_name = {}
+            # answers after the fixed scenario (before the random tail changes the relation)
+            for a, b in [("leaf", "leaf2"), ("leaf", "leaf3"), ("leaf", "leaf4"), ("leaf", "pe_leaf"), ("leaf", "other"),
+                         ("caller", "tr"), ("caller", "c2"), ("caller", "c4")]:
+                if named.get(a) is not None and named.get(b) is not None:
+                    try:
+                        w_strictest(named[a]._loopir_proc, named[b]._loopir_proc)
+                        fixed_strict[(a, b)] = real_outs[-1]
+                    except Exception as e:  # noqa
+                        fixed_strict[(a, b)] = real_outs[-1]
+            for k in list(keyids):
+                keyids_by_name[str(k)] = keyids[k]
             # a random tail of scheduling operations over the same families
             leafs = [x for x in (leaf, leaf2, leaf3, leaf4, leaf5, other) if x is not None]
             callers = [(x, nm) for x, nm in ((caller, "leaf"), (c2, "leaf2"), (c3, "leaf2"), (c4, "leaf4"), (cY, "other"))
@@ -492,7 +518,15 @@ def call_sites(ctx):
                 real_part = _part_inproc(pe, pid, kid)
             except Exception as e:  # noqa
                 real_part = "E" + type(e).__name__
+      except InfraError:
+        raise
+      except _Timeout:
+        setup_error = "timeout (a call into exo did not return)"
+      except Exception as e:  # noqa: a mutated tree may raise anywhere, also outside `attempt`
+        setup_error = f"{type(e).__name__}: {e}"
     finally:
+        signal.alarm(0)
+        signal.signal(signal.SIGALRM, old_handler)
         API.decl_new_proc, API.derive_proc, API.assert_eqv_proc = orig["decl"], orig["derive"], orig["asrt"]
         new_eff.get_repr_proc = orig["repr"]
         sched.get_strictest_eqv_proc = orig["strictest"]
@@ -502,6 +536,9 @@ def call_sites(ctx):
             "recorded_calls": {t: sum(1 for op in hist if op[0] == t) for t in "drasgc"}}
     ctx.extra["call_sites"] = info
     replay = {"kind": "call_sites", "history": hist, "orders": orders, "real_outs": real_outs, "events": events}
+    if setup_error is not None:
+        ctx.violation("call-site:scenario-aborted", f"call-site scenario aborted: {setup_error}", replay)
+        return None
     # expectations about the scenario itself (what the property says about the call sites)
     expect = {"rename": "ok", "write_config.x": "ok", "write_config.y": "ok", "call_eqv.leaf2": "ok",
               "call_eqv.leaf3": "ok", "call_eqv.leaf4": "ok", "call_eqv.back": "ok",
@@ -511,12 +548,8 @@ def call_sites(ctx):
             ctx.violation(f"call-site:{k}", f"call site scenario: {k} gave {ev.get(k)}, expected {v}", replay)
     # what the scheduling ops must have recorded: write_config(CfgA.x) disturbs (at most and at least) CfgA.x
     def strictest_of(a, b):
-        for op, out in reversed(list(zip(hist, real_outs))):
-            if op[0] == "s" and a in ids_of and b in ids_of and op[1] == ids_of[a] and op[2] == ids_of[b]:
-                return out
-        return None
+        return fixed_strict.get((a, b))
 
-    ids_of = {nm: ids[id(p._loopir_proc)] for nm, p in named.items() if p is not None and id(p._loopir_proc) in ids}
     kx, ky = keyids_by_name.get("CfgA_x", "<CfgA_x>"), keyids_by_name.get("CfgA_y", "<CfgA_y>")
     want = {("leaf", "leaf2"): "S1:", ("leaf", "leaf3"): f"S1:{kx}", ("leaf", "leaf4"): f"S1:{kx},{ky}",
             ("leaf", "pe_leaf"): "S0:", ("leaf", "other"): "S1:", ("caller", "tr"): "S0:", ("caller", "c2"): "S1:",
@@ -542,6 +575,8 @@ def call_sites(ctx):
     # model
     ans = lean_batch(DRIVER, [lean_line(hist, orders)])[0]
     model_outs = ans.split(" # ")[0].strip().split(";")
+    if model_outs == real_outs and ans.split(" # ")[2].strip() != real_part:
+        return ("call-sites", "model and real partitions differ after the recorded call-site history", replay)
     if model_outs != real_outs:
         bad = [i for i, (a, b) in enumerate(zip(model_outs, real_outs)) if a != b][:3]
         return ("call-sites", f"model and real differ on recorded call-site history at ops {bad}: "
@@ -653,7 +688,10 @@ def run(ctx):
             ctx.sample({"history": lean_line(h, r["orders"]), "answer": r["answer"]}, limit=3)
 
     # 3. call sites ----------------------------------------------------------------------
-    if not ctx.replay:
+    hung = any("timeout" in r.get("fatal", "") for r in real)
+    if hung:
+        ctx.count("call-sites:skipped-after-timeout")
+    if not ctx.replay and not hung:
         tb = call_sites(ctx)
         if tb is not None and tie_break is None:
             tie_break = tb
